@@ -716,8 +716,8 @@ EncodeStereoEscape (ALAC_ENCODER *p, struct BitBuffer * bitstream, const int32_t
 			mix24 (inputBuffer, stride, p->mMixBufferU, p->mMixBufferV, numSamples, 0, 0, p->mShiftBufferUV, 0) ;
 			for (indx = 0 ; indx < numSamples ; indx++)
 			{
-				BitBufferWrite (bitstream, p->mMixBufferU [indx] >> 8, 24) ;
-				BitBufferWrite (bitstream, p->mMixBufferV [indx] >> 8, 24) ;
+				BitBufferWrite (bitstream, p->mMixBufferU [indx], 24) ;
+				BitBufferWrite (bitstream, p->mMixBufferV [indx], 24) ;
 			}
 			break ;
 		case 32:
